@@ -187,13 +187,12 @@ class ResultTypesGenerator:
         operation_str = print_ast(
             self._get_node_without_mixin_directive(self.operation_definition)
         )
-        if self._fragments_used_as_mixins or self._unpacked_fragments:
-            for used_fragment in sorted(self._get_all_related_fragments()):
-                operation_str += "\n\n" + print_ast(
-                    self._get_node_without_mixin_directive(
-                        self.fragments_definitions[used_fragment]
-                    )
+        for used_fragment in sorted(self._get_all_related_fragments()):
+            operation_str += "\n\n" + print_ast(
+                self._get_node_without_mixin_directive(
+                    self.fragments_definitions[used_fragment]
                 )
+            )
 
         if self.plugin_manager:
             operation_str = self.plugin_manager.generate_operation_str(
@@ -589,13 +588,10 @@ class ResultTypesGenerator:
             )
 
     def _get_all_related_fragments(self) -> Set[str]:
-        fragments_names: Set[str] = self._fragments_used_as_mixins.copy()
-        for fragment_name in self._fragments_used_as_mixins:
-            fragment_def = self.fragments_definitions[fragment_name]
-            fragments_names = fragments_names.union(
-                self._get_fragments_names(fragment_def.selection_set)
-            )
-        return fragments_names.union(self._unpacked_fragments)
+        # Every fragment spread by the operation, directly or through other
+        # fragments, has to be sent with it - also the ones for which no class
+        # was generated.
+        return self._get_fragments_names(self.operation_definition.selection_set)
 
     def _get_fragments_names(self, selection_set: SelectionSetNode) -> Set[str]:
         names: Set[str] = set()
